@@ -112,7 +112,9 @@ PROPS["C09"] = {
                   "merge, any claimed MMR size; for the code after the duplicate-position fix) and nested MKMapProofs (any depth). The "
                   "transliterations run with Lean implementations of Blake2b/Blake2s and are compared with the real code on exhaustive "
                   "small trees/subsets and on single mutations of every proof component; accepted proofs are checked against the "
-                  "committed set directly. Completeness (generated proofs verify) is checked exhaustively on small scope, not proved.",
+                  "committed set directly. Completeness of the STM tree (the batch path the tree GENERATES verifies, for every hash function, every "
+                  "tree below 2^63 leaves and every strictly increasing in-range index list) is proved as well; completeness of the ckb-MMR "
+                  "proof generator is checked exhaustively on small scope only.",
     "level_note": "Trusted: Lean kernel; the hash functions are parameters of the theorems (injectivity / collision disjunct) and are "
                   "only executed in the driver (validated against the blake2/sha2 crates every run); byte-level instantiation of the "
                   "MMR theorem needs equal-length splits (known findings node-as-leaf and concat-split are exactly its failure); the "
@@ -130,7 +132,7 @@ PROPS["C09"] = {
     "trusted_base": ["rustc/cargo; harness bins c09, c09b; cfg-guarded wrappers mithril_stm::verif_hooks (hook H1)",
                      "ckb-merkle-mountain-range 0.6.1 is transliterated (Mmr.lean) and compared by K, not verified itself"],
     "assumptions": ["collision resistance / injectivity of Blake2b-256 and Blake2s-256 enter as hypotheses or disjuncts of the theorems"],
-    "goals_not_proved": ["C09_stm_complete, C09_mkproof_complete (generated proofs verify): exhaustive small-scope test only",
+    "goals_not_proved": ["C09_mkproof_complete (proofs generated by the ckb MMR verify): exhaustive small-scope test only (the generator is third-party code, not modelled)",
                          "byte-level instantiation of C09_mkproof_sound for variable-length leaves is FALSE (known findings C09-node-as-leaf, C09-concat-split)"],
 }
 
